@@ -130,3 +130,26 @@ CHECKS["C08"] = {
          "matching is a shared parameter (Go regexp is exercised, not modelled).",
  "technique": "machine-checked proof in Coq + model/implementation correspondence check",
 }
+
+CHECKS["C12"] = {
+ "text": "Coq theorems over yaml-node and esc syntax trees and the decode -> Walk -> encode pipeline of EncryptSecrets/DecryptSecrets: "
+         "skeleton preservation for every tree of the accepted subset and every encrypter/decrypter (all non-secret keys, scalars with "
+         "tag and value, sequences, mappings, order and comments carried over; the replaced scalar keeps its trivia), strings stay "
+         "strings, Walk is structural; the yaml.v3 text codec is a section variable with a round-trip assumption, exercised for real on "
+         "generated documents (styles, YAML-special strings, comments, non-ASCII) by comparing node trees of input and output and "
+         "re-loading the output",
+ "note": "Trusted: Coq kernel, srcfacts (names compared by crypt.go/ast, MarshalYAML's quoting words), correspondence harness, extraction. "
+         "yaml.v3 is not modelled; scalar presentation style and the spelling of null are not part of the skeleton.",
+ "technique": "machine-checked proof in Coq + model/implementation correspondence check",
+}
+CHECKS["C04"] = {
+ "text": "Coq theorems: after encryption no fn::secret carries plaintext and every scalar of the result is a skeleton scalar, the "
+         "ciphertext key, an envelope of a plaintext or a pre-existing ciphertext; decrypt(encrypt t) restores all secrets and the "
+         "skeleton for every reversible cipher (uses C11's envelope round trip); the syntactic (crypt.go) and semantic (ast) recognition "
+         "of secrets agree on the tabulated shapes; per-secret transparency open(encrypted) = open(plain). Whole-document transparency "
+         "is checked implementation-against-implementation (EvalEnvironment on both forms, values and flags) on documents x special "
+         "texts x ciphertext lengths 0..40",
+ "note": "Trusted: as C12, plus the toy reversible cipher shared by harness and model. Values and flags of whole documents through the "
+         "evaluator are compared, not proved, for this property.",
+ "technique": "machine-checked proof in Coq + model/implementation correspondence check",
+}
